@@ -32,9 +32,19 @@ def corrupt(ev, rng):
     return None
 
 
+CODES = {"Encrypt panicked": "panic", "Decrypt panicked": "panic", "Encrypt failed with a valid public key": "encrypt-failed",
+         "the reference (RFC 9180 / ECIES) cannot decrypt Tink's ciphertext with the recipient key": "not-decryptable-by-reference",
+         "the reference decrypts Tink's ciphertext to another plaintext": "reference-gets-other-plaintext",
+         "Decrypt rejected a ciphertext the reference decrypts": "rejected-valid",
+         "Decrypt accepted an input the reference rejects": "accepted-invalid",
+         "Decrypt returned another plaintext than the reference": "other-plaintext"}
+
+
 def signature(e, bad):
+    """call site + input class: scheme/route/configuration/variant, operation, kind of input, kind of disagreement"""
     cfgs = (e["kem"], e["kdf"], e["aead"]) if e["scheme"] == "HPKE" else (e["curve"], e["hash"], e["fmt"], e["dem"])
-    return "%s/%s/%s/%s %s %s: %s" % (e["scheme"], e["route"], "-".join(cfgs), e["variant"], e["ev"], e.get("kind", ""), bad[0])
+    return "%s/%s/%s/%s %s %s %s" % (e["scheme"], e["route"], "-".join(cfgs), e["variant"], e["ev"], e.get("kind", ""),
+                                     CODES.get(bad[0], bad[0]))
 
 
 def judge(ctx, trace, replaying=False):
@@ -49,7 +59,7 @@ def judge(ctx, trace, replaying=False):
             open(part, "w").write("\n".join(lines[k:k + PART]) + "\n")
             if k == 0:
                 first = part
-        mm, nn = ctx.validate_events("Trace_Hybrid", part, heap="2g", stage="T:Trace_Hybrid[%d]" % (k // PART))
+        mm, nn = ctx.validate_events("Trace_Hybrid", part, heap="2g", max_findings=4, stage="T:Trace_Hybrid[%d]" % (k // PART))
         for m in mm:
             m["index"] += k
         mism += mm
@@ -142,10 +152,12 @@ def run(ctx):
         k = "%s/%s" % (e["ev"], e.get("kind", ""))
         kinds[k] = kinds.get(k, 0) + 1
     ctx.cov["event_kinds"] = kinds
-    for need in ("encrypt/tink", "decrypt/own", "decrypt/reference-made", "decrypt/enc-flip", "decrypt/payload-flip",
+    for need in () if os.environ.get("VERIF_C06_FILTER") else ("encrypt/tink", "decrypt/own", "decrypt/reference-made", "decrypt/enc-flip", "decrypt/payload-flip",
                  "decrypt/prefix-start", "decrypt/info-flip", "decrypt/other-key", "decrypt/cut"):
         if not kinds.get(need):
             raise vlib.Infra("coverage hole: no %s event was recorded" % need)
+    if os.environ.get("VERIF_C06_FILTER"):
+        ctx.log("NOTE: VERIF_C06_FILTER is set (debugging / mutation trial; not evidence)")
     if kinds.get("construct/", 0) > 8:
         raise vlib.Infra("the library refused %d configurations the plan expects to work" % kinds["construct/"])
     for k in (7, len(lines) // 3, len(lines) // 2, len(lines) - 2):
